@@ -1,5 +1,6 @@
 import Spp.Props.C09
 import Spp.Lemmas.NoEnc
+import Spp.Lemmas.Codec
 namespace Spp.C09
 open Spp
 
@@ -705,6 +706,41 @@ theorem parameter_roundtrip (u : Option String) (types : List (String × LPType)
       simp [loadParameter, writeParameter, hlt, mkEl, XmlNode.attr!, XmlNode.attr?, XmlNode.attrs, findFirst, findAll,
         XmlNode.kids, ht, Step.matches, step, XmlNode.isElem, XmlNode.tag, XmlNode.ns, XmlNode.text, bind, Except.bind,
         pure, Except.pure]
+
+/-- **Every key the loader builds is in the regime** (finite floats aside): whatever `value` attribute an
+    `<Enumeration>` entry carries, if the loader accepts it for the type's encoding then the resulting dictionary key
+    satisfies `KeyOK` — for string encodings because ASCII text survives encode → decode in the field's codec
+    (`decode_encode_ascii`). -/
+theorem enumKey_in_regime (enc : Encoding) (s : String) (k : PyVal) (h : enumKey enc s = .ok k)
+    (hfin : ∀ f, k = .flt f → ∃ q, f = .fin q) : KeyOK enc k := by
+  cases enc with
+  | bin be => simp [enumKey, throw, throwThe, MonadExceptOf.throw] at h
+  | num ne =>
+    by_cases hf : ne.isFloat = true
+    · simp only [enumKey, hf, if_true, bind, Except.bind, pure, Except.pure] at h
+      cases hr : readFloat s with
+      | error e => simp [hr] at h
+      | ok f =>
+        simp only [hr] at h
+        injection h with h; subst h
+        obtain ⟨q, rfl⟩ := hfin f rfl
+        exact KeyOK.flt ne hf q
+    · have hf' : ne.isFloat = false := by simpa using hf
+      simp only [enumKey, hf', Bool.false_eq_true, if_false, bind, Except.bind, pure, Except.pure] at h
+      cases hr : readInt s with
+      | error e => simp [hr] at h
+      | ok i =>
+        simp only [hr] at h
+        injection h with h; subst h
+        exact KeyOK.int ne hf' i
+  | str se =>
+    simp only [enumKey] at h
+    cases he : encodeAsciiText se.codec s with
+    | none => simp [he, throw, throwThe, MonadExceptOf.throw] at h
+    | some b =>
+      simp only [he, pure, Except.pure] at h
+      injection h with h; subst h
+      exact KeyOK.str se b s (decode_encode_ascii se.codec s b he) (encodeAsciiText_ascii se.codec s b he) he
 
 /-! ### the enumeration regime is inhabited beyond integer keys -/
 
